@@ -127,7 +127,17 @@ def bindingsOk (r : Row) (b : List (Str × Expr)) : Bool :=
   nodup (b.map (·.1)) &&
   r.targetParams.all (fun tp => tp.hasDefault || (assoc tp.name b).isSome)
 
+/-- "positionally … reaches the same-named parameter": the parameters the helper shares with the
+    target come in the target's (documented) relative order, so a caller who passes arguments by
+    position in the order of `Server.emit` / `Client.emit` … has them bound to the same names by
+    the helper.  Parameters only one side has (the vestigial `room` of `ClientNamespace.send`,
+    `ignore_queue` of `Server.disconnect`) are skipped. -/
+def Row.orderOk (r : Row) : Bool :=
+  r.paramNames.filter (fun p => r.targetNames.contains p)
+    == r.targetNames.filter (fun p => r.paramNames.contains p)
+
 /-- The property, as a condition on the row:
+    * the helper's parameters are in the target's order (`orderOk`);
     * the target is the same-named method of `self.server` / `self.client`;
     * (A) every argument of the call is the helper's parameter OF THE SAME NAME as the target
       parameter it is bound to, by keyword or by the right position — `namespace or self.namespace`
@@ -140,6 +150,7 @@ def Faithful (r : Row) : Bool :=
   && (peerOf r.cls == some r.targetObj) && (r.targetMethod == r.helper)
   && r.resultPassedBack
   && (!r.paramNames.contains nsName || r.targetNames.contains nsName)
+  && r.orderOk
   && match resolveCall r.targetNames r.call with
      | none => false
      | some b =>
